@@ -38,7 +38,9 @@ ASSUMPTIONS = [
     'the registries, type table and table schemas are those of Model/RegistrySnapshot.v (kernel-checked equal to the live ones on every run)',
     'end-to-end stream: the executor model (Eval.v/Exec.v/Order.v/Pivot.v, validated by C01-C03/C15) is the meaning of a lowered '
     'query; strings in data and patterns contain no regular-expression metacharacters (Eval.v models ~ as case-insensitive '
-    'substring search); a statement whose lowering is refused (IN over a subquery or a column, FROM expressions on the Beancount '
+    'substring search); x IN (subquery) is run by first running the subquery in the model and compiling `x IN <its items>` '
+    '(what EvalConstantSubquery1D evaluates to; the inlined constant compares by value where the real node compares equal to '
+    'every other IN-subquery, D25); a statement whose lowering is refused (IN over a column, FROM expressions on the Beancount '
     'tables, scalar functions beyond the ten of Eval.v, folded constants that evaluate to NULL, types outside '
     'int/Decimal/str/date/bool) is counted as not lowerable, not compared',
 ]
@@ -929,6 +931,9 @@ def e2e_cases(tier, rng):
     g = Gen(rng, e2e_reg())
     g.scalar_only = True
     g.where_p = 0.3
+    g.in_subqueries = ['SELECT a FROM #v', 'SELECT a2 FROM #v WHERE a > 1', 'SELECT b FROM #v', 'SELECT DISTINCT a + 1 FROM #v',
+                       'SELECT max(a2) FROM #v', 'SELECT d FROM #v WHERE f', 'SELECT x FROM #v WHERE a > 100',
+                       'SELECT b2 FROM #v GROUP BY b2, f ORDER BY f', 'SELECT s FROM (SELECT sum(a) AS s, b FROM #v GROUP BY b)']
     g.fixed_tables = [c05gen.Tbl('v', E2E_COLS, [c for c, _ in E2E_COLS], '#v')]
     cases = []
     for _ in range(n):
@@ -956,7 +961,9 @@ def e2e_cases(tier, rng):
                  'SELECT c FROM (SELECT a AS c, a2 AS c FROM #v) ORDER BY 1',
                  'SELECT b, a, x / a2, a / a2, a % a2, d + a, d - d, -x FROM #v ORDER BY b, 2',
                  'SELECT b, first(a), last(a), min(x), max(d), count(a2), sum(x2) FROM #v GROUP BY b ORDER BY sum(x2), b',
-                 'SELECT count(*), sum(a) FROM #v WHERE a > 100', 'SELECT a FROM #v WHERE b ~ "X" OR a2 IN (3, NULL) ORDER BY a DESC']:
+                 'SELECT count(*), sum(a) FROM #v WHERE a > 100',
+                 'SELECT a, a IN (SELECT a2 FROM #v) AS i, a NOT IN (SELECT a2 FROM #v WHERE a2 > 100) AS e FROM #v ORDER BY 1',
+                 'SELECT b, count(*) FROM #v WHERE a IN (SELECT max(a) FROM #v) OR b IN (SELECT b2 FROM #v) GROUP BY b ORDER BY b', 'SELECT a FROM #v WHERE b ~ "X" OR a2 IN (3, NULL) ORDER BY a DESC']:
         cases.append(dict(stream='e2e', rule='e2e:fixed', text=text, params=None, rows=rows))
     return cases
 
